@@ -166,7 +166,12 @@ def fit_to_screen(c):
     pad = mk_padding(c, "p") if pad else None
     al = c.new(Alignment, horizontal=HorizontalAlignmentEnum.LEFT, vertical=VerticalAlignmentEnum.TOP)
     L = c.new(Layout, origin=origin, extent=ext, padding=pad, alignment=al, webvtt_positioning=None)
+    parts0 = (ext.horizontal, ext.vertical) if has_ext else None
     r = c.call(Layout.fit_to_screen, L, compare=False)
+    # frame: the layout it was called on - and the value objects it is made of, which other layouts may share - are
+    # left as they were; what is fitted is the layout that is returned
+    c.ensure("receiver_left_as_it_was", L.origin is origin and L.extent is ext and L.padding is pad and L.alignment is al
+             and (not has_ext or (ext.horizontal is parts0[0] and ext.vertical is parts0[1])))
     eps = Fraction(1, 2 ** 50)
     xx, yy = c.exact(x), c.exact(y)
     rw, rh = c.exact(r.extent.horizontal.value), c.exact(r.extent.vertical.value)
